@@ -171,15 +171,7 @@ func (c *Ctx) sortOf(t types.Type) string {
 		case u.Info()&types.IsInteger != 0:
 			return "Int"
 		case u.Info()&types.IsFloat != 0:
-			if c.fmode == "real" {
-				c.uses["real"] = true
-				return "Real"
-			}
-			c.uses["fp"] = true
-			if u.Kind() == types.Float32 {
-				return "F32"
-			}
-			return "F64"
+			return c.fsortOf(t)
 		case u.Info()&types.IsString != 0:
 			c.uses["str"] = true
 			return "String"
@@ -298,23 +290,6 @@ func (c *Ctx) zero(t types.Type) string {
 		return "(mk." + name + " " + strings.Join(fs, " ") + ")"
 	}
 	return "0"
-}
-
-// floatLit renders a decimal literal as a float constant of type t in the current mode.
-func (c *Ctx) floatLit(dec string, t types.Type) string {
-	r, ok := new(big.Rat).SetString(dec)
-	if !ok {
-		panic("bad float literal " + dec)
-	}
-	real := ratSMT(r)
-	if c.fmode == "real" {
-		return real
-	}
-	c.uses["fp"] = true
-	if intBits32(t) {
-		return "((_ to_fp 8 24) RNE " + real + ")"
-	}
-	return "((_ to_fp 11 53) RNE " + real + ")"
 }
 
 func intBits32(t types.Type) bool {
